@@ -84,7 +84,12 @@ func (a *sideEffectActor) AuthorizePostInbox(c context.Context, w http.ResponseW
 		if iter.IsIRI() {
 			iris = append(iris, iter.GetIRI())
 		} else if t := iter.GetType(); t != nil {
-			iris = append(iris, activity.GetJSONLDId().Get())
+			var id *url.URL
+			id, err = GetId(t)
+			if err != nil {
+				return
+			}
+			iris = append(iris, id)
 		} else {
 			err = fmt.Errorf("actor at index %d is missing an id", i)
 			return
